@@ -141,6 +141,10 @@ func validateRecoverRequest(info *RecoverRequestInfo) error {
 		return err
 	}
 
+	if err := validateAnchoringWindow(info.AnchorFrom, info.AnchorUntil); err != nil {
+		return err
+	}
+
 	return validateRecoveryKey(info.RecoveryKey)
 }
 
